@@ -6,6 +6,7 @@ FUNCTIONS = ["Manager.run_tasks", "Manager.set_value", "ExprTask.run", "ExprTask
              "Manager.find_taskids", "Manager.find_tasks", "Manager.register", "Manager.unregister"]
 RAC = "rac/c18.py"
 RAC_BUDGET = {"quick": 60, "thorough": 900}
+RAC_MIN = {"quick": 4038, "thorough": 4038}      # fewer run-time evaluations than this = the harness skipped its work: checker broken, not "held"
 DESIGN_REF = "DESIGN.md section 4, C18"
 TECHNIQUE = ("contract-based deductive verification (pyvc: exceptional postconditions of run_tasks / set_value / "
              "ExprTask.run over a ghost run trace and heap, z3/cvc5) + run-time contracts with fault injection at every "
